@@ -249,7 +249,7 @@ Section Inv.
     - left. destruct h as [[l' [|]]|]; try discriminate.
       destruct (rtlock_eqb gl l') eqn:E; [|discriminate]. apply rtlock_eqb_eq in E. subst l'.
       exists gl. split; [reflexivity|exact Hh].
-    - right. destruct (is_param x && pw) eqn:E; [|discriminate]. apply andb_true_iff in E. tauto.
+    - right. destruct (is_param x && pw) eqn:E; [|discriminate]. apply andb_true_iff in E. destruct E as [E1 E2]. split; [reflexivity|]. split; [exact E1|exact E2].
   Qed.
 
   Lemma about_to_read (s : state) t th rest x :
